@@ -170,6 +170,16 @@ def _warn_for_non_extern_non_static_global_variable(decl):
                       "with C it should have a storage class specifier "
                       "(usually 'extern')" % (decl.name,))
 
+def _warn_for_pragma():
+    import warnings
+    warnings.warn(
+        "#pragma in cdef() are entirely ignored. "
+        "They should be removed for now, otherwise your "
+        "code might behave differently in a future version "
+        "of CFFI if #pragma support gets added. Note that "
+        "'#pragma pack' needs to be replaced with the "
+        "'packed' keyword argument to cdef().")
+
 def _remove_line_directives(csource):
     # _r_line_directive matches whole lines, without the final \n, if they
     # start with '#line' with some spacing allowed, or '#NUMBER'.  This
@@ -455,14 +465,7 @@ class Parser:
                     self._declare('typedef ' + decl.name, realtype, quals=quals)
                 elif decl.__class__.__name__ == 'Pragma':
                     # skip pragma, only in pycparser 2.15
-                    import warnings
-                    warnings.warn(
-                        "#pragma in cdef() are entirely ignored. "
-                        "They should be removed for now, otherwise your "
-                        "code might behave differently in a future version "
-                        "of CFFI if #pragma support gets added. Note that "
-                        "'#pragma pack' needs to be replaced with the "
-                        "'packed' keyword argument to cdef().")
+                    _warn_for_pragma()
                 else:
                     raise CDefError("unexpected <%s>: this construct is valid "
                                     "C but not valid in cdef()" %
@@ -864,6 +867,10 @@ class Parser:
         fldbitsize = []
         fldquals = []
         for decl in type.decls:
+            if decl.__class__.__name__ == 'Pragma':
+                # inside a struct or union too: skipped like at top level
+                _warn_for_pragma()
+                continue
             if (isinstance(decl.type, pycparser.c_ast.IdentifierType) and
                     ''.join(decl.type.names) == '__dotdotdot__'):
                 # XXX pycparser is inconsistent: 'names' should be a list
